@@ -1,5 +1,6 @@
 (* Props/C13.v — C13: compaction actually reclaims space and never grows the store. *)
-From BC Require Import Store.Engine Store.Log Store.Inv Store.Refine Store.Merge Store.MergeLemmas Store.Sizes Store.Theorems Store.SizeThms.
+From BC Require Import Store.Codec Store.CodecProofs Store.Engine Store.Log Store.Inv Store.Refine Store.Merge Store.MergeLemmas Store.Sizes Store.Theorems Store.SizeThms
+  Store.Crash Store.CrashScript Store.CrashMerge.
 Open Scope N_scope.
 
 (* [dir_size d] is the sum of the sizes of the data files of [d] ([dir_size_files]); [live_bytes L i]
@@ -51,6 +52,13 @@ Proof.
   exists s'', t'. split; [exact Hm'|]. rewrite Hsz. exact Hlb.
 Qed.
 Print Assumptions C13_idempotent.
+
+(* the sizes these theorems speak of are the sizes of the files in bytes: a data file that holds the
+   encodings of the model's records is [data_size] bytes long *)
+Theorem C13_sizes_are_bytes : forall s d id f, rep s d -> dir_get d id = Some f ->
+  exists b, s (FData id) = Some b /\ blen b = data_size (d_data f).
+Proof. exact rep_sizes. Qed.
+Print Assumptions C13_sizes_are_bytes.
 
 Example C13_example :
   let c := mkCfg 60 false 0 1 0 1000000000 in
